@@ -6,11 +6,15 @@
 -/
 import DuckModel.Drv.Core
 import DuckModel.Drv.C04
+import DuckModel.Drv.C09
+import DuckModel.Drv.C10
 import DuckModel.Drv.C11
 import DuckModel.Drv.C12
 import DuckModel.Drv.C14
 import DuckModel.Drv.C16
 import DuckModel.Drv.C17
+import DuckModel.Drv.C18
+import DuckModel.Drv.C20
 
 namespace Duck.Driver
 
@@ -18,11 +22,15 @@ namespace Duck.Driver
 def handlers : List (List String → Option String) := [
   Duck.Drv.Core.handle,
   Duck.Drv.C04.handle,
+  Duck.Drv.C09.handle,
+  Duck.Drv.C10.handle,
   Duck.Drv.C11.handle,
   Duck.Drv.C12.handle,
   Duck.Drv.C14.handle,
   Duck.Drv.C16.handle,
-  Duck.Drv.C17.handle
+  Duck.Drv.C17.handle,
+  Duck.Drv.C18.handle,
+  Duck.Drv.C20.handle
 ]
 
 def dispatch (toks : List String) : String :=
